@@ -105,6 +105,109 @@ add("capi::w_mz_misuse", ["C17"],
                 cmd=["capi-init", "{level}", "{method}", "{wbits}", "{mem}", "{strat}"],
                 sig=lambda env: "init-window-bits-negation-overflow" if env.get("wbits") == -2**31 else "other-init-misuse"))
 
+# ----------------------------------------------------------------- W tier, decoder side (contract stub D1-D7)
+DSTUB = "decompress -> decompress_contract"
+D_ASSUME = ["core decompress obeys D1-D7 of DESIGN.md 5.0 (decided on the real core for the stored-block language by the generated E families; assumed beyond)",
+            "contract stub produces at most 3 (vec harness: 8) bytes per core call"]
+INFL_FUNCS = ["inflate::stream::inflate", "inflate_loop", "push_dict_out", "InflateState::new_boxed"]
+add("wrap_inflate::w_inflate_first", ["C13", "C06", "C09"],
+    "real inflate(), first call on a fresh state, any core behaviour allowed by D1-D7: counts <= offered; delivered bytes = next plaintext bytes; Full => Stream error, "
+    "nothing changed; StreamEnd <=> core Done and everything delivered; progress with non-empty buffers; wrapper invariant dict_ofs < 32768, dict_ofs+dict_avail <= 32768",
+    "3 formats x flush in {None,Sync,Finish,Full} x input 0..=2 bytes x output 0..=2 bytes (all symbolic)",
+    kind="W", tier="thorough", timeout=1800, mem_gb=24, heavy=True, functions=INFL_FUNCS, stubs=[DSTUB], assumes=D_ASSUME, stubs_change_behaviour=True)
+add("wrap_inflate::w_inflate_format_flags", ["C09", "C13"],
+    "data format -> decoder flags as seen by the core: zlib header parsed iff Zlib/ZLibIgnoreChecksum; checksum ignored iff not Zlib; HAS_MORE_INPUT iff flush != Finish; "
+    "first-call Finish decodes into the caller's buffer (non-wrapping)",
+    "3 formats x flush in {None,Sync,Finish}, 2-byte input and output", kind="W", tier="thorough", timeout=1800, mem_gb=24, heavy=True,
+    functions=INFL_FUNCS, stubs=[DSTUB], assumes=D_ASSUME, stubs_change_behaviour=True)
+add("wrap_inflate::w_vec_limit", ["C08", "C01", "C03", "C05"],
+    "decompress_to_vec(_zlib)_with_limit over any core behaviour: Ok vector = exactly the produced plaintext and <= limit; errors hand back the decoded prefix, never longer "
+    "than the limit; HasMoreOutput only when produced == limit; doubling loop terminates; flags: non-wrapping, zlib iff requested, no HAS_MORE_INPUT",
+    "input 0..=2 bytes, limit 0..=8 (symbolic), both formats", kind="W", timeout=1200, mem_gb=16,
+    functions=["inflate::decompress_to_vec_inner", "decompress_to_vec_with_limit", "decompress_to_vec_zlib_with_limit"],
+    stubs=["decompress -> decompress_contract_fresh"], assumes=D_ASSUME + ["D8: a fresh decoder offered no input only reports starvation"], stubs_change_behaviour=True)
+add("wrap_inflate::w_slice_iter", ["C03", "C05"],
+    "decompress_slice_iter_to_slice over two slices: Ok(n) <=> core Done with n = bytes produced; output holds the produced prefix; HAS_MORE_INPUT announced for every slice but the last; "
+    "never returns Ok on NeedsMoreInput",
+    "2 slices of 0..=2 bytes, output 0..=4 bytes, zlib/ignore flags symbolic", kind="W", timeout=900,
+    functions=["inflate::decompress_slice_iter_to_slice"], stubs=[DSTUB], assumes=D_ASSUME, stubs_change_behaviour=True)
+
+# ----------------------------------------------------------------- W tier, compressor side (contract stub K1-K5)
+K_ASSUME = ["core compress obeys K1-K5 of DESIGN.md 5.0 (decided on the real core at level 0, n <= 3, by e_comp; assumed beyond)"]
+add("wrap_deflate::w_deflate_seq3", ["C14", "C02"],
+    "real deflate(), every sequence of three calls on a fresh compressor, any core behaviour within K1-K5: counts <= offered; empty output refused without side effects; "
+    "with Finish: StreamEnd or output completely full; StreamEnd only after Finish with all input consumed; afterwards Finish => StreamEnd (0,0), else Buf error; "
+    "non-Finish after Finish => Param error; Buf error only when there was nothing to do",
+    "3 calls x input 0..=2 x output 0..=3 x 5 flush values (all symbolic)", kind="W", timeout=900, mem_gb=16,
+    functions=["deflate::stream::deflate"], stubs=["compress -> compress_contract"], assumes=K_ASSUME, stubs_change_behaviour=True)
+add("wrap_deflate::w_compress_to_vec", ["C01"],
+    "compress_to_vec / compress_to_vec_zlib over any core behaviour within K1-K5: returns exactly the bytes the core emitted, in order; the 'Bug!' panic is unreachable; retry loop terminates",
+    "input 0..=3 bytes, all u8 levels, total compressed size <= 12 bytes", kind="W", timeout=1500, mem_gb=24, tier="thorough",
+    functions=["deflate::compress_to_vec_inner"], stubs=["compress -> compress_contract_writing"], assumes=K_ASSUME, stubs_change_behaviour=True)
+
+# ----------------------------------------------------------------- E tier, compressor level 0
+COMP_FUNCS = ["deflate::core::compress", "compress_inner", "compress_stored", "flush_block", "flush_output_buffer", "OutputBufferOxide::*",
+              "CallbackBuf::flush_output", "zlib::header_from_flags", "update_adler32"]
+for (hn, tier, z, n) in [("e_comp0_raw_n2", "quick", False, 2), ("e_comp0_zlib_n1", "quick", True, 1), ("e_comp0_raw_n0", "thorough", False, 0), ("e_comp0_zlib_n3", "thorough", True, 3)]:
+    add("e_comp::" + hn, ["C01", "C02", "C09", "C10", "C14", "C15", "C16"],
+        "real compress() at level 0, one Finish call: Done, all input consumed, output = one valid stored stream (reference stored decoder) that decodes to the input, exactly one final block, "
+        "only stored blocks; " + ("header valid with CINFO 7, trailer = big-endian Adler-32 of the input, adler32() = reference Adler-32; " if z else "") +
+        "size = n+5(+6) <= mz_deflateBound(n); after Done every further call => BadParam (0,0)",
+        "%s, %d symbolic input bytes, 24-byte output buffer, nothing stubbed" % ("zlib" if z else "raw", n),
+        kind="E", tier=tier, timeout=1800, mem_gb=24, heavy=True, functions=COMP_FUNCS)
+
+# ----------------------------------------------------------------- C16 / C18 / C19
+add("misc::e_adler_n2_anystart", ["C16"],
+    "mz_adler32_oxide(s, d) = RFC 1950 Adler-32 of the concatenation for every valid running value s and 2 bytes; same for every split; empty update is the identity",
+    "all s with both halves < 65521, 2 symbolic bytes, 3 splits", kind="E", functions=["shared::update_adler32", "adler2::Adler32::write_slice"])
+add("misc::e_adler_n4_splits", ["C16"],
+    "Adler-32 of 4 symbolic bytes from the initial value equals the definition for one pass and every split point (exercises the 4-lane path of adler2)",
+    "4 symbolic bytes, start value 1, 4 splits", kind="E", tier="thorough", timeout=1800, functions=["shared::update_adler32", "adler2::Adler32::write_slice"])
+add("misc::l_decomp_clone_regs", ["C19"],
+    "clone() of an arbitrary decoder equals the original on every scalar register and on any entry of the code-length scratch array",
+    "decoder fully symbolic (all arrays), index universally quantified", kind="L", tier="thorough", timeout=2400, mem_gb=24, heavy=True, functions=["DecompressorOxide::clone"])
+add("misc::l_decomp_clone_arrays", ["C19"],
+    "clone() copies every entry of the three lookup tables, trees and the three code-size arrays",
+    "decoder fully symbolic, five universally quantified indices", kind="L", tier="thorough", timeout=3600, mem_gb=24, heavy=True, functions=["DecompressorOxide::clone"])
+add("misc::l_block_boundary_roundtrip", ["C19"],
+    "at a block boundary (ReadBlockHeader, < 8 pending bits) block_boundary_state() is Some with num_bits < 8 and from_block_boundary_state() rebuilds state, pending bits, "
+    "zlib header bytes and running checksum; in every other automaton state it is None",
+    "decoder fully symbolic under the boundary invariant; all other 34 state ids", kind="L",
+    functions=["DecompressorOxide::block_boundary_state", "from_block_boundary_state"])
+add("misc::w_inflate_reset_policies", ["C18"],
+    "MinReset / ZeroReset / FullReset from an arbitrary wrapper state (any offsets, flags, last status incl. failures, decoder mid-stream): protocol fields equal a fresh "
+    "InflateState's, decoder back in Start; Zero/Full clear the window, Full installs the new format; MinReset keeps the window (documented)",
+    "all wrapper fields symbolic; window probed at 3 fixed positions (first, middle, last byte)", kind="W", tier="thorough", timeout=2400, mem_gb=30, heavy=True,
+    functions=["MinReset::reset", "ZeroReset::reset", "FullReset::reset", "InflateState::reset", "reset_as", "DecompressorOxide::init"])
+add("misc::w_inflate_state_clone", ["C19"],
+    "clone() of an arbitrary streaming-inflate state copies the protocol fields, decoder registers and window",
+    "all wrapper fields symbolic; window probed at 3 fixed positions", kind="W", tier="thorough", timeout=3600, mem_gb=30, heavy=True, functions=["InflateState::clone"])
+
+# ----------------------------------------------------------------- U tier copy kernels
+for (hn, cl) in [("u_apply_match_flat", "apply_match (flat buffer) = byte-by-byte LZ77 copy incl. overlap, distance-1 run and length-3 path; no byte outside [out_pos, out_pos+len) changes"),
+                 ("u_transfer_flat", "transfer as WriteLenBytesToEnd calls it (flat) = LZ77 copy of 1..9 bytes; frame condition"),
+                 ("u_copy_ring", "apply_match / transfer with a 16-byte ring (source wraps, destination does not) = LZ77 copy with ring-window semantics; frame condition")]:
+    add("unit::" + hn, ["C03", "C08"], cl,
+        "16-byte buffer with symbolic contents, every out_pos, every distance allowed by the call sites, length <= 9; index of the compared byte universally quantified",
+        kind="U", tier="thorough", timeout=2400, mem_gb=16, functions=["inflate::core::apply_match", "inflate::core::transfer"])
+
+# ----------------------------------------------------------------- S tier
+TERMINALS = ["s_done_forever", "s_block_type_unexpected", "s_bad_code_size_sum", "s_bad_dist_or_literal_table_length", "s_bad_total_symbols",
+             "s_bad_zlib_header", "s_distance_out_of_bounds", "s_bad_raw_length", "s_bad_code_size_dist_prev_lookup", "s_invalid_litlen", "s_invalid_dist"]
+for i, hn in enumerate(TERMINALS):
+    add("steps::" + hn, ["C04", "C05"] + (["C13"] if i == 0 else []),
+        "one real decode call from the injected terminal state: " + ("Done (or Adler32Mismatch iff a checked zlib trailer differs) " if i == 0 else "Failed ") +
+        "with (0,0), registers and output buffer untouched - for any registers/tables, input, flags, out_pos and budget (failure is absorbing)",
+        "decoder fully symbolic under the invariant num_bits <= 61, bit_buf < 2^num_bits, check_adler32 a valid Adler value; input 0..=3 bytes; all 2^8 flag sets; 4-byte buffer, any out_pos <= 4, any budget",
+        kind="S", tier="quick" if i in (0, 3, 7, 9) else "thorough", timeout=600, functions=["inflate::core::decompress_with_limit (terminal arm, epilogue)"],
+        assumes=["representation invariant of reachable decoders: num_bits <= 61, bit_buf < 2^num_bits, running checksum is a valid Adler-32 value"])
+for hn in ["s_bad_param_start", "s_bad_param_block_header", "s_bad_param_raw_memcpy", "s_bad_param_decode_litlen", "s_bad_param_match_copy", "s_bad_param_done", "s_bad_param_failed"]:
+    add("steps::" + hn, ["C05"],
+        "unusable buffer geometry (ring length not a power of two, or out_pos > length) => BadParam (0,0) with decoder registers and buffer untouched, from the injected automaton state",
+        "slice lengths 0..=8 (enumerated), out_pos and budget arbitrary usize, all 2^8 flag sets, decoder fully symbolic",
+        kind="S", tier="quick" if hn in ("s_bad_param_start", "s_bad_param_match_copy") else "thorough", timeout=900,
+        functions=["inflate::core::decompress_with_limit (parameter check)"])
+
 
 def all_harnesses():
     gen = os.path.join(VERIF, "kani", "src", "gen", "registry.json")
